@@ -27,6 +27,7 @@ Hypothesis HEProp : forall a, P a -> P (EProp a).
 Hypothesis HCast : forall ty a, P a -> P (Cast ty a).
 Hypothesis HGeneric : forall n a, P a -> P (Generic n a).
 Hypothesis HSizeofT : P SizeofT.
+Hypothesis HArrLit : forall l, Forall P l -> P (ArrLit l).
 
 Fixpoint expr_ind2 (e : expr) : P e :=
   match e with
@@ -59,6 +60,12 @@ Fixpoint expr_ind2 (e : expr) : P e :=
   | Cast ty a => HCast ty a (expr_ind2 a)
   | Generic n a => HGeneric n a (expr_ind2 a)
   | SizeofT => HSizeofT
+  | ArrLit l =>
+      HArrLit l ((fix go (l : list expr) : Forall P l :=
+                    match l with
+                    | [] => Forall_nil P
+                    | a :: l' => Forall_cons a (expr_ind2 a) (go l')
+                    end) l)
   end.
 End ExprInd.
 
@@ -85,7 +92,7 @@ Qed.
 (* first token of a printed expression *)
 Definition head_ok (ts : list tok) : bool :=
   match ts with
-  | (TNum _ | TId _ | TLP | TNot | TTilde | TInc | TDec | TOp Sub | TOp BAnd | TOp Mul) :: _ => true
+  | (TNum _ | TId _ | TLP | TLB | TNot | TTilde | TInc | TDec | TOp Sub | TOp BAnd | TOp Mul | TAwait | TTry | TChecked) :: _ => true
   | _ => false
   end.
 
@@ -156,6 +163,12 @@ Fixpoint pr_args (l : list expr) : list tok :=
   | a :: l' => pr tbl 0 a ++ match l' with [] => [TRP] | _ => TComma :: pr_args l' end
   end.
 
+Fixpoint pr_elems (l : list expr) : list tok :=
+  match l with
+  | [] => [TRB]
+  | a :: l' => pr tbl 0 a ++ match l' with [] => [TRB] | _ => TComma :: pr_elems l' end
+  end.
+
 Lemma pr_eq c e : pr tbl c e = if c <=? lev tbl e then pr tbl 0 e else TLP :: pr tbl 0 e ++ [TRP].
 Proof. destruct e; reflexivity. Qed.
 
@@ -184,6 +197,8 @@ Lemma pr0_call f args : pr tbl 0 (Call f args) = TId f :: TLP :: pr_args args.
 Proof. reflexivity. Qed.
 Lemma pr0_mcall ar a m args :
   pr tbl 0 (MCall ar a m args) = pr tbl (L + 4) a ++ (if ar then TArrow else TDot) :: TId m :: TLP :: pr_args args.
+Proof. reflexivity. Qed.
+Lemma pr0_arr l : pr tbl 0 (ArrLit l) = TLB :: pr_elems l.
 Proof. reflexivity. Qed.
 Lemma pr0_cast ty a : pr tbl 0 (Cast ty a) = TLP :: ty ++ TRP :: pr tbl (L + 2) a.
 Proof. reflexivity. Qed.
@@ -494,6 +509,28 @@ Proof.
       * apply IH; [exact Hwl|]. apply (safe_after (pr tbl 0 a) TComma); [reflexivity|exact Hs].
 Qed.
 
+Lemma head_not_rb ts : head_ok ts = true -> forall r0, ts <> TRB :: r0.
+Proof. intros H r0 ->. discriminate H. Qed.
+
+Lemma elems_parse l : Forall (fun a => wf a = true -> Pst a /\ Sst a /\ Qst a) l ->
+  forallb wf l = true -> forall R, safeb (pr_elems l ++ R) = true ->
+  PElems tbl (pr_elems l ++ R) (map strip l, R).
+Proof.
+  induction 1 as [|a l Ha Hl IH]; intros Hw R Hs.
+  - apply R_elems_nil.
+  - cbn [forallb] in Hw. apply andb_true_iff in Hw. destruct Hw as [Hwa Hwl].
+    destruct (Ha Hwa) as (HPa & _ & _).
+    cbn [pr_elems map] in *. destruct l as [|b l'].
+    + norm. apply R_elems_last.
+      * apply head_not_rb, head_ok_app, pr_head.
+      * apply (HPa 0); [lia|reflexivity|exact Hs].
+    + norm.
+      apply (R_elems_cons tbl _ (strip a) (pr_elems (b :: l') ++ R)).
+      * apply head_not_rb, head_ok_app, pr_head.
+      * apply (HPa 0); [lia|reflexivity|exact Hs].
+      * apply IH; [exact Hwl|]. apply (safe_after (pr tbl 0 a) TComma); [reflexivity|exact Hs].
+Qed.
+
 (* ------------------------------------------------------------------ the main induction *)
 Theorem roundtrip_all : forall e, wf e = true -> Pst e /\ Sst e /\ Qst e.
 Proof.
@@ -662,6 +699,11 @@ Proof.
       * apply R_post_stop. apply (fol_postfix (L + 2)). exact Hf.
     + cbn [lev]. lia.
     + intros k R v Hk E. cbn [lev] in E. lia.
+  - (* ArrLit *)
+    apply assemble_prim; [cbn [lev]; lia|]. intros R Hl Hs.
+    rewrite pr0_arr in *. cbn [app strip] in *.
+    apply R_prim_arr. apply elems_parse; [exact H|exact Hw|].
+    apply (safe_after [] TLB); [reflexivity|exact Hs].
 Qed.
 
 (* ------------------------------------------------------------------ a parenthesised identifier *)
